@@ -1182,72 +1182,45 @@ private theorem nth_arith (a offset : Int) (ha : a ≠ 0) :
       exact Int.mul_nonneg (Int.le_of_lt (sq_pos a ha)) (Int.natCast_nonneg n)
     · exact Int.fmod_eq_zero_of_dvd ⟨n, rfl⟩
 
-/-- `:nth(an+b)` — `page_match`, arithmetic core: whenever the quotient fits a float,
-`offset == 0 if a == 0 else (offset / a >= 0 and not offset % a)` holds exactly when
-`offset = a·n` for some natural `n` (Python's true division sign test and floored `%`; `a = 0`
-and negative `a` included). -/
-theorem nth_test_iff (a offset : Int)
-    (hfit : a = 0 ∨ offset.natAbs < floatOverflowBound * a.natAbs) :
-    nthTest a offset = .ok true ↔ ∃ n : Nat, offset = a * (n : Int) := by
+/-- `:nth(an+b)` — `page_match`, arithmetic core, full strength (no bound on the integers since
+the sign test is on the product, commit b05dd13):
+`offset == 0 if a == 0 else (offset * a >= 0 and not offset % a)` holds exactly when
+`offset = a·n` for some natural `n` (floored `%`; `a = 0` and negative `a` included). -/
+theorem nth_test_iff (a offset : Int) :
+    nthTest a offset = true ↔ ∃ n : Nat, offset = a * (n : Int) := by
   unfold nthTest
   by_cases ha : a = 0
   · subst ha
     simp
-  · have hfit' : ¬ (offset.natAbs ≥ floatOverflowBound * a.natAbs) := by
-      rcases hfit with h | h
-      · exact absurd h ha
-      · omega
-    have hbeq : (a == 0) = false := by simpa using ha
-    simp only [hbeq, hfit', if_false, Bool.false_eq_true]
+  · have hbeq : (a == 0) = false := by simpa using ha
+    simp only [hbeq, Bool.false_eq_true, if_false]
     rw [← nth_arith a offset ha]
     simp
-
-/-- Totality: the only failure of the test is the float overflow of `offset / a`. -/
-theorem nth_test_total (a offset : Int)
-    (hfit : a = 0 ∨ offset.natAbs < floatOverflowBound * a.natAbs) :
-    ∃ b, nthTest a offset = .ok b := by
-  unfold nthTest
-  by_cases ha : a = 0
-  · subst ha; simp
-  · have hfit' : ¬ (offset.natAbs ≥ floatOverflowBound * a.natAbs) := by
-      rcases hfit with h | h
-      · exact absurd h ha
-      · omega
-    have hbeq : (a == 0) = false := by simpa using ha
-    simp [hbeq, hfit']
-
-/-- The quotient `(index + 1 - b) / a` fits a float (always true for page counts and coefficients
-below 10^300). -/
-def fits (a b index : Int) : Prop :=
-  a = 0 ∨ (index + 1 - b).natAbs < floatOverflowBound * a.natAbs
 
 /-- `index + 1 = a·n + b` for some natural `n`: the page (1-based) is selected by `:nth(an+b)`. -/
 def nthSelects (a b index : Int) : Prop := ∃ n : Nat, index + 1 = a * (n : Int) + b
 
-private theorem nth_offset (a b index : Int) (h : fits a b index) :
-    nthTest a (index + 1 - b) = .ok true ↔ nthSelects a b index := by
-  rw [nth_test_iff a _ h]
+private theorem nth_offset (a b index : Int) :
+    nthTest a (index + 1 - b) = true ↔ nthSelects a b index := by
+  rw [nth_test_iff]
   unfold nthSelects
   constructor
   · rintro ⟨n, hn⟩; exact ⟨n, by omega⟩
   · rintro ⟨n, hn⟩; exact ⟨n, by omega⟩
 
-theorem groups_test_iff (a b : Int) (name : String) (groups : List (String × Int))
-    (hfit : ∀ g ∈ groups, fits a b g.2) :
-    groupsTest a b name groups = .ok true ↔
+theorem groups_test_iff (a b : Int) (name : String) (groups : List (String × Int)) :
+    groupsTest a b name groups = true ↔
       ∃ g ∈ groups, g.1 = name ∧ nthSelects a b g.2 := by
   induction groups with
   | nil => simp [groupsTest]
   | cons g rest ih =>
     obtain ⟨gn, gi⟩ := g
-    have hrest : ∀ g ∈ rest, fits a b g.2 := fun g hg => hfit g (List.mem_cons_of_mem _ hg)
-    have hhead : fits a b gi := hfit (gn, gi) (by simp)
     simp only [groupsTest]
     by_cases hne : (name != gn) = true
     · have hne' : gn ≠ name := by
         intro e; subst e; simp at hne
       simp only [hne, if_true]
-      rw [ih hrest]
+      rw [ih]
       constructor
       · rintro ⟨g, hg, h⟩; exact ⟨g, List.mem_cons_of_mem _ hg, h⟩
       · rintro ⟨g, hg, h⟩
@@ -1257,25 +1230,23 @@ theorem groups_test_iff (a b : Int) (name : String) (groups : List (String × In
     · have heq : gn = name := by
         simp at hne; exact hne.symm
       simp only [hne]
-      obtain ⟨t, ht⟩ := nth_test_total a (gi + 1 - b) hhead
-      have hiff := nth_offset a b gi hhead
-      rw [ht] at hiff ⊢
-      cases t with
+      have hiff := nth_offset a b gi
+      cases ht : nthTest a (gi + 1 - b) with
       | true =>
-        simp only [bind, Except.bind, pure, Except.pure, if_true]
+        simp only [if_true]
         constructor
-        · intro _; exact ⟨(gn, gi), by simp, heq, hiff.mp rfl⟩
+        · intro _; exact ⟨(gn, gi), by simp, heq, hiff.mp ht⟩
         · intro _; rfl
       | false =>
-        simp only [bind, Except.bind, pure, Except.pure, Bool.false_eq_true, if_false]
-        rw [ih hrest]
+        simp only [Bool.false_eq_true, if_false]
+        rw [ih]
         constructor
         · rintro ⟨g, hg, h⟩; exact ⟨g, List.mem_cons_of_mem _ hg, h⟩
         · rintro ⟨g, hg, h⟩
           rcases List.mem_cons.mp hg with e | hg
           · subst e
             have := hiff.mpr h.2
-            simp at this
+            rw [ht] at this; cases this
           · exact ⟨g, hg, h⟩
 
 /-- What a page selector component demands. -/
@@ -1297,17 +1268,12 @@ def indexOk (index : Option (Int × Int × Option String)) (page : PageType) : P
   | some (a, b, some name) =>
     name = page.name ∧ ∃ g ∈ page.groups, g.1 = name ∧ nthSelects a b g.2
 
-def indexFits (index : Option (Int × Int × Option String)) (page : PageType) : Prop :=
-  match index with
-  | none => True
-  | some (a, b, none) => fits a b page.index
-  | some (a, b, some _) => ∀ g ∈ page.groups, fits a b g.2
-
-/-- `page_match`: `_page_type_match` holds exactly when every conjunct of the selector holds:
-side, blank, first (`index == 0`), name, and `:nth(an+b [of name])` ⇔ `∃ n ≥ 0, index + 1 = a·n + b`
-(on some page group of that name for the `of` form). -/
-theorem page_type_match_iff (sel : PageSelector) (page : PageType) (hfit : indexFits sel.index page) :
-    pageTypeMatch sel page = .ok true ↔
+/-- `page_match`, full strength: `_page_type_match` holds exactly when every conjunct of the
+selector holds: side, blank, first (`index == 0`), name, and `:nth(an+b [of name])` ⇔
+`∃ n ≥ 0, index + 1 = a·n + b` (on some page group of that name for the `of` form), for all
+integers `a`, `b` and page indices. -/
+theorem page_type_match_iff (sel : PageSelector) (page : PageType) :
+    pageTypeMatch sel page = true ↔
       compOk sel.side page.side ∧ compOk sel.blank page.blank ∧
       compOk sel.first (page.index == 0) ∧ compOk sel.name page.name ∧ indexOk sel.index page := by
   unfold pageTypeMatch
@@ -1320,24 +1286,19 @@ theorem page_type_match_iff (sel : PageSelector) (page : PageType) (hfit : index
   | none => simp [indexOk]
   | some t =>
     obtain ⟨a, b, nm⟩ := t
-    rw [hidx] at hfit
     cases nm with
     | none =>
       simp only [indexOk]
-      exact nth_offset a b page.index hfit
+      exact nth_offset a b page.index
     | some name =>
       simp only [indexOk]
       by_cases hn : (name != page.name) = true
       · have : name ≠ page.name := by simpa using hn
         simp [this]
       · have hname : name = page.name := by simpa using hn
-        have hn' : (name != page.name) = false := by simpa using hn
-        rw [if_pos hname]
-        rw [groups_test_iff a b name page.groups hfit]
-        constructor
-        · intro h; exact ⟨hname, h⟩
-        · intro h; exact h.2
-
+        simp only [hname, decide_true, Bool.true_and, true_and]
+        rw [← hname]
+        exact groups_test_iff a b name page.groups
 
 private theorem natOfRat_nat' (w : Nat) : natOfRat ((w : Nat) : Rat) = some w := by
   simp [natOfRat]
@@ -1502,10 +1463,14 @@ example : (applyAll [⟨"color", "a", ⟨3, [0, 0, 1, 0]⟩⟩, ⟨"color", "b",
 example : winner [("a", (⟨3, [0, 1, 0, 0]⟩ : Weight)), ("b", ⟨4, [0, 0, 0, 1]⟩), ("c", ⟨3, [0, 1, 0, 0]⟩)]
     = some ("b", ⟨4, [0, 0, 0, 1]⟩) := by decide
 example : nthSelects 2 1 4 := ⟨2, by decide⟩          -- page 5 is selected by :nth(2n+1)
-set_option exponentiation.threshold 2000 in
-example : (nthTest (-1) (3 + 1 - 6)).toOption = some true := by decide +kernel   -- :nth(-n+6) selects page 4
-set_option exponentiation.threshold 2000 in
-example : fits 2 1 4 := Or.inr (by decide +kernel)
+example : nthTest (-1) (3 + 1 - 6) = true := by decide   -- :nth(-n+6) selects page 4
+-- regression for the repaired finding page-nth-overflow (commit b05dd13): `@page :nth(n + 10^400)` is
+-- decided with integer arithmetic (it used to raise OverflowError on `offset / a`): no match on page 1,
+-- and the page numbered 10^400 + 5 is selected
+example : pageTypeMatch ⟨none, none, none, some (1, (10 : Int) ^ 400, none), none⟩
+    ⟨"right", false, 0, "", []⟩ = false := by decide +kernel
+example : pageTypeMatch ⟨none, none, none, some (1, (10 : Int) ^ 400, none), none⟩
+    ⟨"right", false, (10 : Int) ^ 400 + 4, "", []⟩ = true := by decide +kernel
 example : lookup "small" fontSizeKeywords = some (128 / 9 : Rat) := by decide +kernel
 example : firstAbove 16 keywordSizes = some (96 / 5 : Rat) := by decide +kernel
 example : lookupNat 400 fontWeightBolder = some 700 := by decide
